@@ -104,7 +104,7 @@ Inductive op :=
 | Nbrs (q : query)          (* get_neighbors / iter_neighbors *)
 | Contents (cells : list coord).  (* get_cell_list_contents *)
 
-Definition enc (p : coord) : Z := fst p * 65536 + snd p.
+Definition enc (p : coord) : Z := fst p * 4294967296 + snd p.
 Definition obs_cells (l : list coord) : list Z :=
   let e := map enc l in (if has_dup e then 1 else 0) :: zsort e.
 Definition obs_agents (l : list Z) : list Z :=
